@@ -242,6 +242,69 @@ func c20Run(c *engine.Ctx) {
 			c20Exec(c, c20Case{Pts: line, Threshold: ref.F(t), Stride: 2 + (n+ti+2)%4})
 		}
 	})
+	// raster-like lines: runs of unit steps in the 8 compass directions. (a) two runs, every pair
+	// of directions x lengths {1,15,20,70,100}^2, the joint vertex single or doubled; (b) three
+	// runs of 20 / 70 steps in every direction triple, each joint single or doubled; (c) a long
+	// run, an excursion of 1..6 steps in every direction out and back, the run continued (lengths
+	// 10/64/70/100 on either side, so that the input has up to 200 points) - long straight runs,
+	// repeated vertices at corners and short diagonal detours inside long intervals
+	dirs8 := [][2]float64{{1, 0}, {1, 1}, {0, 1}, {-1, 1}, {-1, 0}, {-1, -1}, {0, -1}, {1, -1}}
+	type rasterRun struct {
+		d, n int
+		dup  bool // the vertex the run starts from is listed twice
+	}
+	build := func(runs []rasterRun) []ref.F {
+		x, y := 0.0, 0.0
+		out := []ref.F{0, 0}
+		for _, r := range runs {
+			if r.dup {
+				out = append(out, ref.F(x), ref.F(y))
+			}
+			for k := 0; k < r.n; k++ {
+				x, y = x+dirs8[r.d][0], y+dirs8[r.d][1]
+				out = append(out, ref.F(x), ref.F(y))
+			}
+		}
+		return out
+	}
+	var rasters [][]rasterRun
+	for d1 := 0; d1 < 8; d1++ {
+		for d2 := 0; d2 < 8; d2++ {
+			for _, n1 := range []int{1, 15, 20, 70, 100} {
+				for _, n2 := range []int{1, 15, 20, 70, 100} {
+					for _, dup := range []bool{false, true} {
+						rasters = append(rasters, []rasterRun{{d1, n1, false}, {d2, n2, dup}})
+					}
+				}
+			}
+			for d3 := 0; d3 < 8; d3++ {
+				for _, n := range []int{20, 70} {
+					for dups := 0; dups < 4; dups++ {
+						rasters = append(rasters, []rasterRun{{d1, n, false}, {d2, n, dups&1 != 0}, {d3, n, dups&2 != 0}})
+					}
+				}
+			}
+			for _, a := range []int{10, 64, 70, 100} {
+				for _, b := range []int{10, 64, 70, 100} {
+					for e := 1; e <= 6; e++ {
+						if a+b+2*e > 199 {
+							continue
+						}
+						rasters = append(rasters, []rasterRun{{d1, a, false}, {d2, e, false}, {(d2 + 4) % 8, e, false}, {d1, b, false}})
+					}
+				}
+			}
+		}
+	}
+	c.Note("raster_lines", len(rasters))
+	rasterT := []float64{0, 0.5, 1, 1.5, 2, 3, 4, 5}
+	c.Parallel(len(rasters), func(i int) {
+		pts := build(rasters[i])
+		for ti, t := range rasterT {
+			c.Count("raster_line_cases", 1)
+			c20Exec(c, c20Case{Pts: pts, Threshold: ref.F(t), Stride: 2 + (i+ti)%4})
+		}
+	})
 	// far beyond the quantifier's 200 points (the statement says "any coordinate sequence"): the
 	// same three shapes with 1000, 4097, 10001 (thorough 40000) points - a divided or blocked
 	// implementation shows at its seams
